@@ -26,6 +26,9 @@ def check_history(run):
     out = []
     cfg = run.cfg
     hist = [int(x) for x in cfg.get("hist", "").split(",") if x != ""]
+    rep = int(cfg.get("rep", 1))
+    if rep > 1 and hist:
+        hist = [hist[0]] * rep + hist[1:]      # `rep=k`: the first width is broadcast k times in a row (pooldrv expands it the same way)
     panics = set()
     for t in cfg.get("panics", "").split(","):
         if t:
